@@ -117,7 +117,8 @@ func (w *vrWorld) c13ChainV1() {
 	next, ok := w.renew1(tip, vrRenewOK, -1)
 	w.unlock1(tip)
 	if !ok {
-		w.t.Fatal("directed renewal refused")
+		w.hit("live-contract-refuses-renewal", fmt.Sprintf("contract %d", w.cN(tip)))
+		return
 	}
 	w.predecessorRefuses(tip, false)
 	tip = next
@@ -128,7 +129,8 @@ func (w *vrWorld) c13ChainV1() {
 		next, ok = w.renew1(tip, vrRenewOK, -1)
 		w.unlock1(tip)
 		if !ok {
-			w.t.Fatal("directed renewal refused")
+			w.hit("live-contract-refuses-renewal", fmt.Sprintf("contract %d", w.cN(tip)))
+			return
 		}
 		w.predecessorRefuses(tip, false)
 		w.prune()
@@ -150,7 +152,8 @@ func (w *vrWorld) c13ChainV2() {
 	tip, other := w.order2[0], w.order2[1]
 	next, ok := w.renew2(tip, false, vrRenew2OK, -1) // empty
 	if !ok {
-		w.t.Fatal("directed renewal refused")
+		w.hit("live-contract-refuses-renewal", fmt.Sprintf("contract %d", w.cN(tip)))
+		return
 	}
 	w.predecessorRefuses(tip, true)
 	tip = next
@@ -160,7 +163,8 @@ func (w *vrWorld) c13ChainV2() {
 		w.reviseTip2(other, true)
 		next, ok = w.renew2(tip, g%2 == 0, vrRenew2OK, -1)
 		if !ok {
-			w.t.Fatal("directed renewal refused")
+			w.hit("live-contract-refuses-renewal", fmt.Sprintf("contract %d", w.cN(tip)))
+			return
 		}
 		w.predecessorRefuses(tip, true)
 		w.prune()
